@@ -138,6 +138,10 @@ pub(crate) fn verif_opcode_table() -> Vec<(u8, String, Vec<usize>)> {
 pub struct Bytecode {
     pub constants: Vec<Object>,
     pub instructions: Vec<u8>,
+
+    /// Position of the first instruction of the program.
+    /// A retained compiler keeps the instructions of earlier programs (the values of their functions point into it).
+    pub entry: usize,
 }
 
 pub struct Compiler {
@@ -195,11 +199,15 @@ impl Compiler {
         // compiler (as used by the REPL) should be able to continue as if nothing happened
         let num_globals = self.symbols.num_globals();
 
+        // Functions are values that refer to a position in the instructions, and they can live on in global
+        // variables. So the instructions of earlier programs stay where they are and this program is added after them.
+        let entry = self.instructions.len();
+
         // Call compile_statement on each child node directly
         // We don't re-use compile_block_statement here because it exits the global scope
         for s in ast {
             if let Err(e) = self.compile_statement(s) {
-                self.instructions.clear();
+                self.instructions.truncate(entry);
                 self.loop_contexts.clear();
                 self.symbols.rollback(num_globals);
                 return Err(e);
@@ -217,7 +225,8 @@ impl Compiler {
 
         Ok(Bytecode {
             constants: self.constants.clone(),
-            instructions: std::mem::take(&mut self.instructions),
+            instructions: self.instructions.clone(),
+            entry,
         })
     }
 
